@@ -1009,6 +1009,11 @@ func (s *blobStore) FetchReference(ctx context.Context, reference string) (desc 
 	case http.StatusOK: // server does not support seek as `Range` was ignored.
 		if resp.ContentLength == -1 {
 			desc, err = s.Resolve(ctx, reference)
+			if err == nil {
+				// the descriptor came from a separate HEAD request: the digest
+				// header of this response must not contradict it
+				err = verifyContentDigest(resp, desc.Digest)
+			}
 		} else {
 			desc, err = generateBlobDescriptor(resp, refDigest)
 		}
@@ -1244,6 +1249,11 @@ func (s *manifestStore) FetchReference(ctx context.Context, reference string) (d
 	case http.StatusOK:
 		if resp.ContentLength == -1 {
 			desc, err = s.Resolve(ctx, reference)
+			if err == nil {
+				// the descriptor came from a separate HEAD request: the digest
+				// header of this response must not contradict it
+				err = verifyContentDigest(resp, desc.Digest)
+			}
 		} else {
 			desc, err = s.generateDescriptor(resp, ref, req.Method)
 		}
